@@ -142,6 +142,92 @@ func init() {
 		}
 		g.Emit(J{"op": "llo.history", "cfg": w.cfgJ(), "start": start, "startSeqNr": 10, "rounds": rounds, "attestations": []any{}}, "history", "2000-channels")
 	}
+	// A predecessor that holds the maximum number of channels, all reportable in its last reporting round, retires;
+	// the successor (which defines the lowest, a middle and the highest channel id) is promoted and carries every
+	// channel on: no window may be lost or doubled at the size limits either.
+	values3 := func() []any {
+		return []any{J{"sid": "1", "v": svJ(llo.ToDecimal(decimal.New(1001, -2)))}, J{"sid": "2", "v": svJ(llo.ToDecimal(decimal.New(1002, -2)))}, J{"sid": "3", "v": svJ(llo.ToDecimal(decimal.New(1003, -2)))}}
+	}
+	genFullHandover := func(g *G) {
+		for _, nch := range []int{1999, 2000} {
+			w := newWorld(g)
+			w.f, w.version, w.interval, w.alias, w.verbose = 1, 1, 1, 0, false
+			w.now = 1_700_000_000_000_000_000
+			w.hasPred = false
+			cfgA := w.cfgJ()
+			w.hasPred = true
+			cfgB := w.cfgJ()
+			def := func(id int) J { return J{"format": "2", "opts": "", "streams": []any{J{"sid": S(1 + id%3), "agg": "1"}}} }
+			defs, va := []any{}, []any{}
+			for id := 1; id <= nch; id++ {
+				defs = append(defs, J{"id": S(id), "def": def(id)})
+				va = append(va, J{"id": S(id), "va": S(w.now - 1_000_000_000)})
+			}
+			startA := J{"stage": "production", "ts": S(w.now), "defs": defs, "va": va, "aggs": []any{}}
+			bdefs, bva := []any{}, []any{}
+			for _, id := range []int{1, 1000, nch} {
+				bdefs = append(bdefs, J{"id": S(id), "def": def(id)})
+				bva = append(bva, J{"id": S(id), "va": S(w.now - 2_000_000_000)})
+			}
+			startB := J{"stage": "staging", "ts": S(w.now), "defs": bdefs, "va": bva, "aggs": []any{}}
+			mkRound := func(retire bool, att string, upd []any) J {
+				w.now += 1_500_000_000
+				obs := []any{}
+				for k := 0; k < 4; k++ {
+					obs = append(obs, J{"retire": retire, "attested": att, "ts": S(w.now + uint64(k)), "removes": []any{}, "updates": upd, "values": values3()})
+				}
+				return J{"obs": obs}
+			}
+			roundsA := []any{mkRound(false, "", []any{}), mkRound(true, "", []any{}), mkRound(false, "", []any{})}
+			roundsB := []any{mkRound(false, hexs(validToken), []any{}), mkRound(false, "", []any{J{"id": "7", "def": def(7)}}), mkRound(false, "", []any{}), mkRound(false, "", []any{})}
+			g.Emit(J{"op": "llo.handover", "cfgA": cfgA, "cfgB": cfgB, "startA": startA, "startB": startB, "startSeqNr": 10, "roundsA": roundsA, "roundsB": roundsB},
+				"handover", "handover-at-channel-limit")
+		}
+	}
+	RegGen("C04", "plus handovers of a predecessor holding 1999 / 2000 channels, all reportable in its last reporting round", genFullHandover)
+	// A successor that inherits the maximum number of validity starts and holds channels of its own is promoted and
+	// retired in the same round; everything must then stay frozen, round after round.
+	genBigInheritance := func(g *G) {
+		for _, nch := range []int{1998, 2000} {
+			w := newWorld(g)
+			w.f, w.version, w.interval, w.alias, w.verbose, w.hasPred = 1, 1, 1, 0, false, true
+			w.now = 1_700_000_000_000_000_000
+			rrva := []any{}
+			for id := 1; id <= nch; id++ {
+				rrva = append(rrva, J{"id": S(id), "va": S(w.now - uint64(id))})
+			}
+			def := func(id int) J { return J{"format": "2", "opts": "", "streams": []any{J{"sid": S(1 + id%3), "agg": "1"}}} }
+			bdefs, bva := []any{}, []any{}
+			for _, id := range []int{3001, 3002, 3003, 5} {
+				bdefs = append(bdefs, J{"id": S(id), "def": def(id)})
+				bva = append(bva, J{"id": S(id), "va": S(w.now - 2_000_000_000)})
+			}
+			start := J{"stage": "staging", "ts": S(w.now), "defs": bdefs, "va": bva, "aggs": []any{}}
+			rounds := []any{}
+			for r := 0; r < 5; r++ {
+				w.now += 1_500_000_000
+				obs, honest := []any{}, []any{}
+				for k := 0; k < 4; k++ {
+					o := J{"retire": r == 0, "attested": "", "ts": S(w.now + uint64(k)), "removes": []any{}, "updates": []any{}, "values": values3()}
+					if r == 0 {
+						o["attested"] = hexs(validToken)
+					}
+					if r == 2 { // votes cast after retirement change nothing
+						o["removes"] = []any{"5"}
+						o["updates"] = []any{J{"id": "9", "def": def(9)}}
+					}
+					obs = append(obs, o)
+					honest = append(honest, k)
+				}
+				rounds = append(rounds, J{"obs": obs, "honest": honest})
+			}
+			g.Emit(J{"op": "llo.history", "cfg": w.cfgJ(), "start": start, "startSeqNr": 10, "rounds": rounds,
+				"attestations": []any{J{"bytes": hexs(validToken), "rr": J{"version": "1", "va": rrva}}}}, "history", "promoted-and-retired-in-one-round", "inherits-channel-limit")
+		}
+	}
+	for _, p := range []string{"C05", "C04"} {
+		RegGen(p, "plus a successor that inherits 1998 / 2000 validity starts, holds channels of its own and is promoted and retired in the same round", genBigInheritance)
+	}
 	for _, p := range []string{"C03", "C04", "C18", "C11"} {
 		RegGen(p, "plus histories whose timestamps differ by exactly the minimum report interval (and one nanosecond off)", genExact)
 	}
